@@ -206,7 +206,13 @@ class State:
             if var_name in notify_vars:
                 continue
             parts = var_name.split(".")
-            if var_name in cls.notify_var_last:
+            if len(parts) == 3 and f"{parts[0]}.{parts[1]}" in new_vars:
+                #
+                # an attribute of the variable whose change is being delivered: take it from
+                # that value, not from the last notified one, which can be a later change
+                #
+                notify_vars[var_name] = getattr(new_vars[f"{parts[0]}.{parts[1]}"], parts[2], None)
+            elif var_name in cls.notify_var_last:
                 notify_vars[var_name] = cls.notify_var_last[var_name]
             elif len(parts) == 3 and f"{parts[0]}.{parts[1]}" in cls.notify_var_last:
                 notify_vars[var_name] = getattr(
